@@ -7,6 +7,7 @@ from ..model import (AnalysisError, dotted, norm_text, names_read, const_value,
 from ..rules import lastdim
 from ..rules.lastdim import Aff, T, Interp, UNKNOWN
 from ..rules import intervals
+from ..rules import numeric_opts
 
 TECHNIQUE = ('symbolic last-dimension propagation over all discrete call forms '
              '(validator vs implementation), sign/interval/monotonicity '
@@ -41,6 +42,11 @@ def run(prog, res):
   _v4(prog, res)
   _i1(prog, res)
   _i2(prog, res)
+  fns = []
+  for m in ('conditional_pwl_calibration', 'conditional_cdf', 'cdf_layer'):
+    fns += [f for f in prog.module(m).all_functions() if f.parent is None]
+  numeric_opts.check(prog, res, fns)
+  res.floor('N0', 10)
   res.floor('V4', 36)
   res.floor('I1', 20)
   res.floor('I2', 9)
@@ -276,6 +282,14 @@ def _i2(prog, res):
           pad = st
       if isinstance(st, ast.BinOp) and isinstance(st.op, ast.Div):
         num = st
+    for st in ast.walk(cw.node):
+      if isinstance(st, ast.Call) and (prog.ext_name(cw.module, st.func) or
+                                       '').endswith('divide_no_nan'):
+        probs.append('weights use divide_no_nan: a key-point gap that '
+                     'underflows to 0 then gets weight 0 for EVERY input '
+                     '(instead of 1 to its right), so its increment is lost: '
+                     'clamped end values and cyclic equality break')
+        return probs
     if num is None:
       raise _Unrecognised('(inputs - keypoints) / lengths not found')
     if clip is None:
